@@ -1,4 +1,6 @@
-package parquet_test
+package scratch
+
+// D92 (C01): failed before the fix commit; see known_findings.json.
 
 // PRE-EXISTING (fails on the unchanged tree): a time.Time stored in a
 // TIMESTAMP(MILLIS) or TIMESTAMP(MICROS) column does not read back as the same
@@ -19,7 +21,7 @@ import (
 	"github.com/parquet-go/parquet-go"
 )
 
-func TestPreexisting1TimestampOutsideNanoRange(t *testing.T) {
+func TestD92TimestampRange(t *testing.T) {
 	type row struct {
 		Ms time.Time `parquet:"ms,timestamp(millisecond)"`
 		Us time.Time `parquet:"us,timestamp(microsecond)"`
